@@ -604,6 +604,15 @@ func VerifyLinkSignatureThesholds(layout Layout,
 					continue
 				}
 
+				// The link is counted under signerKeyID, so this must be the
+				// ID of the certificate's own key. Otherwise a single
+				// certificate holder could be counted several times, using
+				// links that carry further signatures with made-up key IDs.
+				if cert.KeyID != signerKeyID {
+					stepErr = fmt.Errorf("key ID '%s' does not belong to the attached certificate", signerKeyID)
+					continue
+				}
+
 				err = linkEnv.VerifySignature(cert)
 				if err != nil {
 					stepErr = err
